@@ -47,3 +47,4 @@ func verifEnvBegin()                        { panic("verif intrinsic") }
 func verifEnvReplay()                       { panic("verif intrinsic") }
 func verifEnvEnd()                          { panic("verif intrinsic") }
 func verifRepeat() int                      { panic("verif intrinsic") }
+func verifStubValue[T any](name string) (T, bool) { panic("verif intrinsic") }
